@@ -171,6 +171,7 @@ func lastEpoch(ci *CallInfo) (uint64, bool) {
 //	noinit:<call>:<from>:<to>   open a Session call whose first request is a Send
 //	listen:<call>:<who>         open a Listen call
 //	cancel:<call>               cancel the call's context
+//	wait                        block until no other thread can run
 //	send:<call>:<id>            submit payload <id> signed by the caller with the last announced epoch (skipped if none)
 //	sende:<call>:<id>:<epoch>   submit with an explicit epoch
 //	sendas:<call>:<id>:<peer>   submit a message signed by another peer's key (last announced epoch)
@@ -199,6 +200,9 @@ func (w *World) Do(action string) {
 		ci.D = sigfake.NewDuplex(context.Background(), ci.Name, w.IDs[ci.From], w.tap)
 		w.Call[ci.Name] = ci
 		w.Calls.RunListen(w.Srv, ci.D, nil)
+	case "wait":
+		// let everything else run as far as it can (lowest-priority step)
+		vsync.Quiesce()
 	case "cancel":
 		ci := w.Call[f[1]]
 		if ci != nil {
